@@ -33,7 +33,7 @@ TRANSLATED = {'C17': ('calendar_src', 'extract_calendar', 'calendar.py'), 'C18':
               'C16': ('task_src', 'extract_task', 'wbs_src', 'extract_wbs', 'facade_src', 'extract_facade'),
               'C10': ('task_src', 'extract_task', 'wbs_src', 'extract_wbs'),
               'C12': ('critpath_src', 'extract_critpath'), 'C13': ('csv_src', 'extract_csv'), 'C20': ('print_src', 'extract_print'),
-              'C19': ('render_src', 'extract_render')}
+              'C19': ('render_src', 'extract_render', 'dhtmlx_src', 'extract_dhtmlx')}
 
 
 CASE_TIMEOUT = float(os.environ.get('VERIF_CASE_TIMEOUT', '20'))
